@@ -38,6 +38,12 @@ class Rec(System):
             self.flags.append((self.model.is_running(), bool(self.model)))
 
 
+class FalsyRec(Rec):
+    """a system that is falsy (an empty work queue, like the library's own Agent without components): scheduled like any other"""
+    def __len__(self):
+        return 0
+
+
 def run_case(case):
     prios = [int(p) % 4 for p in case["systems"]][:140]
     if len(prios) < 1:
@@ -73,7 +79,7 @@ def _run_second_manager(case, model, prios):
     mgr = SystemManager(model)
     systems = []
     for i, p in enumerate(prios):
-        s = Rec(f"s{i}", model, p, log, complete_at=(T if i == ci else None), flags=flags)
+        s = (FalsyRec if (i + len(prios)) % 3 == 0 else Rec)(f"s{i}", model, p, log, complete_at=(T if i == ci else None), flags=flags)
         s.clock = mgr
         mgr.add_system(s)
         systems.append(s)
@@ -138,7 +144,7 @@ def _run_main(case, model, prios):
     ci = int(case.get("completer", 0)) % len(prios)
     systems = []
     for i, p in enumerate(prios):
-        s = Rec(f"s{i}", model, p, log, complete_at=(T if (i == ci and not outside) else None), flags=flags)
+        s = (FalsyRec if (i + len(prios)) % 3 == 0 else Rec)(f"s{i}", model, p, log, complete_at=(T if (i == ci and not outside) else None), flags=flags)
         model.systems.add_system(s)
         systems.append(s)
     for k in range(3):
